@@ -67,7 +67,10 @@ fn main() {
             }
             let code = match id.as_str() {
                 "C02" => drive(&c02::C02, tier),
-                "C04" => drive(&via_client::ViaClient { inner: c04::C04 }, tier),
+                "C04" => {
+                    framework::silence_library_stdout();
+                    drive(&via_client::ViaClient { inner: c04::C04 }, tier)
+                }
                 "C05" => {
                     framework::silence_library_stdout();
                     drive(&via_client::ViaClient { inner: c05::C05 }, tier)
@@ -103,7 +106,10 @@ fn main() {
             });
             let code = match doc["property"].as_str().unwrap_or("") {
                 "C02" => replay(&c02::C02, &doc),
-                "C04" => replay(&via_client::ViaClient { inner: c04::C04 }, &doc),
+                "C04" => {
+                    framework::silence_library_stdout();
+                    replay(&via_client::ViaClient { inner: c04::C04 }, &doc)
+                }
                 "C05" => {
                     framework::silence_library_stdout();
                     replay(&via_client::ViaClient { inner: c05::C05 }, &doc)
